@@ -341,6 +341,14 @@ func fcCodeName(err error) string {
 	return "another transport error"
 }
 
+// fcIdx maps a scenario selector onto one of n candidates ("the k-th outstanding thing").
+func fcIdx(sel int64, n int) int {
+	if sel < 0 {
+		sel = -(sel + 1)
+	}
+	return int(sel % int64(n))
+}
+
 func fcAddIv(iv [][2]int64, lo, hi int64) [][2]int64 {
 	if hi <= lo {
 		return iv
@@ -954,7 +962,7 @@ func (w *fcWorld) adversary(kind int, sel, variant int64) {
 	if len(cand) == 0 {
 		return
 	}
-	i := cand[int(sel)%len(cand)]
+	i := cand[fcIdx(sel, len(cand))]
 	r := w.rcv[i]
 	room := min(r.adv-r.hi, w.connAdv-w.connHi)
 	var seg fcSeg
@@ -1000,7 +1008,7 @@ func (w *fcWorld) adversary(kind int, sel, variant int64) {
 		w.res.Fault("adversarial-final-size-changed")
 		w.res.Probe("adversarial-final-size-changed")
 	case 3: // final size below the highest offset already received: FINAL_SIZE_ERROR
-		end := r.hi - 1 - (variant/2)%r.hi
+		end := r.hi - 1 - int64(fcIdx(variant/2, int(min(r.hi, 1<<30))))
 		seg = fcSeg{s: i, off: end, fin: true}
 		if variant&1 == 1 {
 			seg = fcSeg{s: i, off: end, reset: true}
@@ -1065,7 +1073,7 @@ func runFC(t *testing.T, ksc KScenario, res *KResult) {
 		if len(cand) == 0 {
 			return -1
 		}
-		return cand[int(sel)%len(cand)]
+		return cand[fcIdx(sel, len(cand))]
 	}
 	pickRcv := func(sel int64) int {
 		var cand []int
@@ -1077,7 +1085,7 @@ func runFC(t *testing.T, ksc KScenario, res *KResult) {
 		if len(cand) == 0 {
 			return -1
 		}
-		return cand[int(sel)%len(cand)]
+		return cand[fcIdx(sel, len(cand))]
 	}
 	retransmit := func(idx int, split int64, fate int64) {
 		seg := w.segLost[idx]
@@ -1143,7 +1151,7 @@ func runFC(t *testing.T, ksc KScenario, res *KResult) {
 				w.flushConn(op.C)
 			}
 			if len(cand) > 0 {
-				w.flushStream(cand[int(op.A)%len(cand)], op.C)
+				w.flushStream(cand[fcIdx(op.A, len(cand))], op.C)
 				res.Shape("f")
 			}
 			if op.D&2 == 2 {
@@ -1154,7 +1162,7 @@ func runFC(t *testing.T, ksc KScenario, res *KResult) {
 			res.Shape("c")
 		case "dlv":
 			if n := len(w.segQ); n > 0 {
-				idx := int(op.A) % n
+				idx := fcIdx(op.A, n)
 				if idx != 0 {
 					res.Fault("data-reordered")
 				}
@@ -1164,11 +1172,11 @@ func runFC(t *testing.T, ksc KScenario, res *KResult) {
 			}
 		case "retx":
 			if n := len(w.segLost); n > 0 {
-				retransmit(int(op.A)%n, op.B, op.C)
+				retransmit(fcIdx(op.A, n), op.B, op.C)
 			}
 		case "udlv":
 			if n := len(w.msgQ); n > 0 {
-				idx := int(op.A) % n
+				idx := fcIdx(op.A, n)
 				if idx != 0 {
 					res.Fault("update-reordered")
 				}
@@ -1178,7 +1186,7 @@ func runFC(t *testing.T, ksc KScenario, res *KResult) {
 			}
 		case "uretx":
 			if n := len(w.msgLost); n > 0 {
-				idx := int(op.A) % n
+				idx := fcIdx(op.A, n)
 				m := w.msgLost[idx]
 				w.msgLost = append(w.msgLost[:idx], w.msgLost[idx+1:]...)
 				res.Probe("update-retransmitted")
@@ -1200,7 +1208,7 @@ func runFC(t *testing.T, ksc KScenario, res *KResult) {
 				}
 			}
 			if len(cand) > 0 {
-				w.resetSend(cand[int(op.A)%len(cand)], op.B, op.C)
+				w.resetSend(cand[fcIdx(op.A, len(cand))], op.B, op.C)
 				res.Shape("R")
 			}
 		case "cancel":
